@@ -63,3 +63,23 @@ pub open spec fn scheme_declared(f: HirFnDef, s: Option<FnScheme>) -> bool {
     s matches Some(sc) && (sc.ty matches Ty::TFunc { params, ret_ty } && declared_params(f.params@, params@)
         && *ret_ty == (match f.ret_ty { Some(h) => hir_ty(h), None => Ty::TUnit }))
 }
+// ---- define_struct / define_enum (the definitions constructors, field accesses and patterns are checked against) ----
+pub struct HirStructDef { pub name: HirIdent, pub generics: Vec<HirIdent>, pub fields: Vec<(HirIdent, HirTypeExpr)> }      // hir::StructDef: the fields define_struct reads
+pub struct HirEnumDef { pub name: HirIdent, pub generics: Vec<HirIdent>, pub variants: Vec<(HirIdent, Vec<HirTypeExpr>)> }   // hir::EnumDef
+impl PackageTypeEnv {
+    pub uninterp spec fn struct_def(&self, name: Seq<char>) -> Option<StructDef>;
+    pub uninterp spec fn enum_def(&self, name: Seq<char>) -> Option<EnumDef>;
+}
+#[verifier::external_body] pub fn insert_struct(env: &mut PackageTypeEnv, def: StructDef) ensures final(env).struct_def(def.name.0@) == Some(def) { unimplemented!() }   // env.current_mut().insert_struct(def)
+#[verifier::external_body] pub fn insert_enum(env: &mut PackageTypeEnv, def: EnumDef) ensures final(env).enum_def(def.name.0@) == Some(def) { unimplemented!() }
+pub open spec fn names_of(hs: Seq<HirIdent>, ts: Seq<TastIdent>) -> bool { ts.len() == hs.len() && forall|i: int| 0 <= i < hs.len() ==> (#[trigger] ts[i]).0@ == hs[i].text() }
+pub open spec fn tys_of(hs: Seq<HirTypeExpr>, ts: Seq<Ty>) -> bool { ts.len() == hs.len() && forall|i: int| 0 <= i < hs.len() ==> #[trigger] ts[i] == hir_ty(hs[i]) }
+// the recorded struct: the written name, the written type parameters in order, and field i = (written name, the type its annotation denotes), in order
+pub open spec fn struct_declared(h: HirStructDef, d: Option<StructDef>) -> bool {
+    d matches Some(s) && s.name.0@ == h.name.text() && names_of(h.generics@, s.generics@) && s.fields@.len() == h.fields@.len()
+    && forall|i: int| 0 <= i < h.fields@.len() ==> (#[trigger] s.fields@[i]).0.0@ == h.fields@[i].0.text() && s.fields@[i].1 == hir_ty(h.fields@[i].1)
+}
+pub open spec fn enum_declared(h: HirEnumDef, d: Option<EnumDef>) -> bool {
+    d matches Some(e) && e.name.0@ == h.name.text() && names_of(h.generics@, e.generics@) && e.variants@.len() == h.variants@.len()
+    && forall|i: int| 0 <= i < h.variants@.len() ==> (#[trigger] e.variants@[i]).0.0@ == h.variants@[i].0.text() && tys_of(h.variants@[i].1@, e.variants@[i].1@)
+}
